@@ -104,7 +104,7 @@ def sample_contract(con, contracts, n, seed):
     base.add(*st.pc)
     base.add(*ops.axioms_for(list(st.pc)))
     for ln in lens:
-        base.add(ln <= 24)
+        base.add(ln <= getattr(con.cls, "sample_max_len", 24))
     for sc in scalars:
         if z3.is_int(sc) and not (z3.is_const(sc) and sc.decl().name() in ops.RANGES):
             wide = getattr(con.cls, "sample_wide", False)     # pure arithmetic contracts opt in to huge operands
